@@ -69,20 +69,22 @@ type PlanReg struct {
 
 type L2Options struct {
 	MinGasPrices string // node-local min gas prices (app.toml)
+	SecpVals     bool   // the chain's consensus parameters also allow secp256k1 validator keys
 }
 
 type L2 struct {
-	DB      dbm.DB
-	Enc     Encoding
-	App     *baseapp.BaseApp
-	Keys    map[string]*storetypes.KVStoreKey
-	AK      authkeeper.AccountKeeper
-	BK      bankkeeper.BaseKeeper
-	OK      *opchildkeeper.Keeper
-	OrK     *oraclekeeper.Keeper
-	Fault   *FaultState
-	MM      *module.Manager
-	BankMod bank.AppModule
+	secpVals bool
+	DB       dbm.DB
+	Enc      Encoding
+	App      *baseapp.BaseApp
+	Keys     map[string]*storetypes.KVStoreKey
+	AK       authkeeper.AccountKeeper
+	BK       bankkeeper.BaseKeeper
+	OK       *opchildkeeper.Keeper
+	OrK      *oraclekeeper.Keeper
+	Fault    *FaultState
+	MM       *module.Manager
+	BankMod  bank.AppModule
 
 	Authority string
 
@@ -191,6 +193,7 @@ type hostMemo struct {
 	Height int64    `json:"h"`
 	Keys   [][]byte `json:"k"`
 	Powers []int64  `json:"p"`
+	NoKey  []bool   `json:"n,omitempty"`
 }
 
 // HostMemo encodes a validator-set refresh for a transaction memo.
@@ -199,6 +202,7 @@ func HostMemo(u HostSetUpdate) string {
 	for _, v := range u.Set.Validators {
 		m.Keys = append(m.Keys, v.PubKey.GetEd25519())
 		m.Powers = append(m.Powers, v.VotingPower)
+		m.NoKey = append(m.NoKey, v.PubKey.Sum == nil)
 	}
 	bz, _ := json.Marshal(m)
 	return "hostset:" + string(bz)
@@ -212,7 +216,11 @@ func (h hostAnte) AnteHandle(ctx sdk.Context, tx sdk.Tx, simulate bool, next sdk
 		}
 		vs := &cmtproto.ValidatorSet{}
 		for i := range m.Keys {
-			vs.Validators = append(vs.Validators, &cmtproto.Validator{PubKey: cmtcrypto.PublicKey{Sum: &cmtcrypto.PublicKey_Ed25519{Ed25519: m.Keys[i]}}, VotingPower: m.Powers[i]})
+			pk := cmtcrypto.PublicKey{Sum: &cmtcrypto.PublicKey_Ed25519{Ed25519: m.Keys[i]}}
+			if i < len(m.NoKey) && m.NoKey[i] {
+				pk = cmtcrypto.PublicKey{} // a key type this chain cannot convert
+			}
+			vs.Validators = append(vs.Validators, &cmtproto.Validator{PubKey: pk, VotingPower: m.Powers[i]})
 		}
 		if err := h.n.OK.UpdateHostValidatorSet(ctx, m.Client, m.Height, vs); err != nil {
 			return ctx, err
@@ -229,7 +237,7 @@ var l2MaccPerms = map[string][]string{
 
 func NewL2(db dbm.DB, gen *L2Genesis, opts L2Options, plans []PlanReg) *L2 {
 	enc := MakeEncoding()
-	n := &L2{DB: db, Enc: enc, Fault: &FaultState{Record: true}}
+	n := &L2{DB: db, Enc: enc, Fault: &FaultState{Record: true}, secpVals: opts.SecpVals}
 	bopts := []func(*baseapp.BaseApp){baseapp.SetChainID(L2ChainID), baseapp.SetOptimisticExecution()}
 	if opts.MinGasPrices != "" {
 		bopts = append(bopts, baseapp.SetMinGasPrices(opts.MinGasPrices))
@@ -409,6 +417,9 @@ func (n *L2) initChain(gen *L2Genesis) {
 		Block:     &cmtproto.BlockParams{MaxBytes: 1 << 22, MaxGas: -1},
 		Evidence:  &cmtproto.EvidenceParams{MaxAgeNumBlocks: 1000, MaxAgeDuration: time.Hour, MaxBytes: 1 << 20},
 		Validator: &cmtproto.ValidatorParams{PubKeyTypes: []string{"ed25519"}},
+	}
+	if n.secpVals {
+		cp.Validator.PubKeyTypes = append(cp.Validator.PubKeyTypes, "secp256k1")
 	}
 	res, err := n.App.InitChain(&abci.RequestInitChain{ChainId: L2ChainID, Time: gen.Time, ConsensusParams: cp, AppStateBytes: bz, InitialHeight: ih})
 	if err != nil {
